@@ -415,6 +415,7 @@ impl EndpointConfig {
 pub mod verif {
     pub use crate::half_connection::{HalfConnection, Config, FrameSink, PacketSink, VerifSnapshot};
     pub use crate::half_connection::{SendRateComp, FeedbackData, VerifRateState};
+    pub use crate::half_connection::{ReorderBuffer, LossIntervalQueue};
     pub use crate::frame::*;
     pub use crate::frame::serial::{Serialize, DataFrameBuilder, AckFrameBuilder, crc_compute};
 }
